@@ -417,10 +417,12 @@ func runC08(sc Scenario, victim int, plan []crashPoint, ref *c08Result, fail fai
 	// the plain fair schedule also during the DKG blocks
 	r.plainSchedule = true
 	res.execErr = r.execute()
+	nUnits, nBcasts := -1, -1
 	if res.execErr == nil {
 		// no more crashes; a few more blocks so that a victim killed in the
 		// last blocks of the run can catch up before the final comparison
 		vt.planLeft = len(vt.plan)
+		nUnits, nBcasts = len(vt.units), len(vt.bcasts)
 		vt.plan = nil
 		vt.arm()
 		for i := 0; i < 3; i++ {
@@ -429,6 +431,10 @@ func runC08(sc Scenario, victim int, plan []crashPoint, ref *c08Result, fail fai
 		}
 	}
 	res.units, res.bcasts, res.crashes, res.zombie, res.restarts = vt.units, vt.bcasts, vt.crashes, vt.zombie, vt.node().Restarts
+	if nUnits >= 0 {
+		// crash points are enumerated over the scheduled part of the run only
+		res.units, res.bcasts = vt.units[:nUnits], vt.bcasts[:nBcasts]
+	}
 	res.unsupported = r.unsupported()
 	res.h0 = r.h0
 	res.crashedPending = vt.crashedPending
@@ -465,7 +471,7 @@ func runC08(sc Scenario, victim int, plan []crashPoint, ref *c08Result, fail fai
 	if vt.crashedPending {
 		// one root cause, one signature: the reloaded DKG state rejects the
 		// commitments/evals that were still outstanding at the restart
-		if o, err := r.outcome(vt.node()); err == nil && o.HasRow && !o.Success && strings.Contains(o.Error, "not considered corrupt") {
+		if o, err := r.outcome(vt.node()); err == nil && o.HasRow && !o.Success && (strings.Contains(o.Error, "not considered corrupt") || strings.Contains(o.Error, "keypers participated")) {
 			fail(sigReloadPending, "the victim was restarted while its stored DKG state still waited for commitments/evals; afterwards it refused them and its DKG failed: dkg_result.error=%q (every other keyper succeeds, as does the victim in the crash-free twin)\n%s", o.Error, hist())
 			return res
 		}
